@@ -123,7 +123,12 @@ def role_case(match, target, creds):
     exp = role_expected(match, target, creds)
     if exp is None:
         return False, 'outside precondition (malformed placeholder)'
+    import copy
+    t0, c0 = copy.deepcopy(target), copy.deepcopy(creds)
     out = outcome(_checks.RoleCheck('role', match), target, creds, None)
+    if (t0, c0) != (target, creds):
+        # native reading of the frame: the contract modifies nothing the caller passed in
+        return True, 'role:%s wrote into its arguments: target %r -> %r, creds %r -> %r' % (match, t0, target, c0, creds)
     if out[0] == 'exc':
         return True, 'role:%s raised %s for target=%r creds=%r' % (match, out[1], target, creds)
     if bool(out[1]) != exp:
@@ -166,7 +171,11 @@ def generic_case(kind, match, target, creds):
     exp = generic_expected(kind, match, target, creds)
     if exp is None:
         return False, 'outside precondition (malformed placeholder)'
+    import copy
+    t0, c0 = copy.deepcopy(target), copy.deepcopy(creds)
     out = outcome(_checks.GenericCheck(kind, match), target, creds, None)
+    if (t0, c0) != (target, creds):
+        return True, '%s:%s wrote into its arguments: target %r -> %r, creds %r -> %r' % (kind, match, t0, target, c0, creds)
     if out[0] == 'exc':
         return True, '%s:%s raised %s for target=%r creds=%r' % (kind, match, out[1], target, creds)
     if bool(out[1]) != exp:
